@@ -1,13 +1,21 @@
 import Krp.Driver
 open Krp
 
-partial def loop (h : IO.FS.Stream) (out : IO.FS.Stream) (s : Sys) : IO Unit := do
+partial def loop (h : IO.FS.Stream) (out : IO.FS.Stream) (s : Sys) (saved : Sys) : IO Unit := do
   let line ← h.getLine
   if line.isEmpty then return ()
-  let (s', o) := step s line
-  out.putStrLn o
-  loop h out s'
+  let t := line.trimAscii.toString
+  if t == "save" then
+    out.putStrLn "ok | save"
+    loop h out s s
+  else if t == "restore" then
+    out.putStrLn "ok | restore"
+    loop h out saved saved
+  else
+    let (s', o) := step s line
+    out.putStrLn o
+    loop h out s' saved
 
 def main : IO Unit := do
   let out ← IO.getStdout
-  loop (← IO.getStdin) out sys0
+  loop (← IO.getStdin) out sys0 sys0
